@@ -134,11 +134,11 @@ def theorem_names(vfile):
     return re.findall(r'^\s*Theorem\s+([A-Za-z0-9_\']+)', s, re.M)
 
 
-def print_assumptions(pid, thms, timeout=600):
+def print_assumptions(pid, thms, timeout=600, tag=None):
     """returns dict thm -> list of axiom names ([] = closed)"""
     d = (BUILD_ALT if ALT else BUILD) + '/assum'
     os.makedirs(d, exist_ok=True)
-    f = '%s/Assum_%s.v' % (d, pid)
+    f = '%s/Assum_%s.v' % (d, tag or pid)
     with open(f, 'w') as fh:
         fh.write('From V Require Import Props.%s.\n' % pid)
         for t in thms:
@@ -410,7 +410,11 @@ def main():
     # 3. proof obligations
     props_v = '%s/Props/%s.v' % (COQ, pid)
     thms = theorem_names(props_v)
-    rc, out = coq_make([getattr(prop, 'COQ_PROPS', 'Props/%s.vo' % pid)], timeout=3400)
+    # further pinned-theorem files this property also relies on (e.g. Props/Bridge.v: the
+    # abstract-field theorems instantiated at the executed ZpOps dictionary)
+    extra_props = [e for e in getattr(prop, 'EXTRA_PROP_FILES', []) if os.path.exists('%s/Props/%s.v' % (COQ, e))]
+    extra_thms = {e: theorem_names('%s/Props/%s.v' % (COQ, e)) for e in extra_props}
+    rc, out = coq_make([getattr(prop, 'COQ_PROPS', 'Props/%s.vo' % pid)] + ['Props/%s.vo' % e for e in extra_props], timeout=3400)
     discharged = 0
     failing_obligation = None
     ax_report = {}
@@ -422,6 +426,10 @@ def main():
     else:
         try:
             ax_report, raw = print_assumptions(pid, thms)
+            for e in extra_props:
+                r2, _ = print_assumptions(e, extra_thms[e], tag='%s_%s' % (pid, e))
+                ax_report.update(r2)
+            thms = thms + [t for e in extra_props for t in extra_thms[e]]
         except Exception as ex:
             print('MACHINERY-ERROR: %s' % ex)
             sys.exit(2)
